@@ -29,6 +29,18 @@ def same_type(vals, cls):
     return all(isinstance(v, cls) for v in vals)
 
 
+class _Raised(tuple):
+    """What a generator call left behind when it raised: compares unequal to every expected vector, so the case is recorded as a difference."""
+    degree = npts = None
+
+
+def _gen(f, *a):
+    try:
+        return f(*a)
+    except Exception as e:       # an exception of the code under contract is a failed obligation of that case, not a crash of the check
+        return _Raised(("%s: %s" % (type(e).__name__, str(e)[:60]),))
+
+
 def task_generators(pmax, extra):
     """Closed forms for every (degree, npts, cls) up to the bound (bounded stand-in for the V proof over all p, n)."""
     out = []
@@ -37,20 +49,20 @@ def task_generators(pmax, extra):
     for p in range(pmax + 1):
         for cls in (int, float, Fraction):
             count += 1
-            k = G.bezier(p, cls)
+            k = _gen(G.bezier, p, cls)
             if list(k) != [0] * (p + 1) + [1] * (p + 1) or k.degree != p or k.npts != p + 1 or not same_type(list(k), cls):
                 bad["bezier"].append((p, cls.__name__, tuple(k)))
             for n in range(p + 1, p + 1 + extra):
                 count += 1
                 m = n - p - 1
-                k = G.integer(p, n, cls)
+                k = _gen(G.integer, p, n, cls)
                 want = [0] * p + list(range(m + 2)) + [m + 1] * p
                 if list(k) != want or k.degree != p or k.npts != n or not same_type(list(k), cls):
                     bad["integer"].append((p, n, cls.__name__, tuple(k)))
                 if cls is not int:
-                    k = G.uniform(p, n, cls)
+                    k = _gen(G.uniform, p, n, cls)
                     wantu = [F(x, m + 1) for x in want]
-                    ok = k.degree == p and k.npts == n and len(k) == len(wantu) and k[0] == 0 and k[-1] == 1 and \
+                    ok = not isinstance(k, _Raised) and k.degree == p and k.npts == n and len(k) == len(wantu) and k[0] == 0 and k[-1] == 1 and \
                         all((F(a) == b) if cls is Fraction else abs(float(a) - float(b)) <= 1e-15 for a, b in zip(k, wantu)) and same_type(list(k), cls)
                     if cls is Fraction:
                         ok = ok and all(F(k[i + 1]) - F(k[i]) == F(1, m + 1) for i in range(p, n))
@@ -67,14 +79,17 @@ def task_generators(pmax, extra):
     # weight(p, w): clamped, spacing w, type of the weights
     bw = []
     for p in range(0, 4):
-        for ws in ([1], [2], [1, 2], [F(1, 3), F(5, 2), F(1, 7)], [2.5, 0.25, 1.0, 4.0], [3, 1, 1, 2, 5]):
-            k = G.weight(p, list(ws))
+        for ws in ([1], [2], [1, 2], [F(1, 3), F(5, 2), F(1, 7)], [2.5, 0.25, 1.0, 4.0], [3, 1, 1, 2, 5],
+                   # weight vectors of MIXED number classes: the knot spacing is still exactly w (no truncation to the class of the first weight)
+                   [1, F(1, 2), F(3, 2)], [F(1, 2), 1, 2], [2, 0.5, 1.25], [1, 2, F(7, 3), 1]):
+            k = _gen(G.weight, p, list(ws))
             acc = [type(ws[0])(0)]
             for w in ws:
                 acc.append(acc[-1] + w)
             want = [acc[0]] * p + acc + [acc[-1]] * p
-            if list(k) != want or k.degree != p or k.npts != p + len(ws) or any(k[p + i + 1] - k[p + i] != ws[i] for i in range(len(ws))) or \
-                    not same_type(list(k), type(ws[0])):
+            mixed = len({type(w) for w in ws}) > 1
+            if isinstance(k, _Raised) or list(k) != want or k.degree != p or k.npts != p + len(ws) or any(k[p + i + 1] - k[p + i] != ws[i] for i in range(len(ws))) or \
+                    not (mixed or same_type(list(k), type(ws[0]))):
                 bw.append((p, ws, tuple(k)))
     fn = "knotspace.GeneratorKnotVector.weight"
     out.append(ob("%s:closed-form" % fn, fn, FAILED if bw else PROVED, "B", "enumeration", 0.0,
@@ -235,6 +250,11 @@ def replay(o):
         return tuple(lim) != (0.0, 1.0), (0.0, 1.0), tuple(lim)
     if w.get("task"):
         return H.generic_replay(o)
+    if w["kind"] == "c18.gen":
+        # re-run the enumeration of the generators and report the obligation of that generator
+        r = [x for x in task_generators(5, 8) if "id" in x and x["id"].startswith("knotspace.GeneratorKnotVector.%s:" % w["gen"])]
+        bad = [x for x in r if x["status"] == FAILED]
+        return bool(bad), "the closed form of %s for every enumerated case" % w["gen"], (bad[0]["detail"] if bad else "all enumerated cases agree")
     return False, "see verifier output", "not replayed"
 
 
